@@ -446,6 +446,18 @@ type funcContext struct {
 	labelPc         map[int]int
 	gotosCount      int
 	unresolvedGotos map[int]*gotoLabelDesc
+	pendingBreaks   []*pendingBreak
+}
+
+// pendingBreak is a break for which it is not known yet whether it has to
+// close upvalues: a closure over a local of a block the break leaves may
+// follow the break in the text and still run before it (reached by a
+// backward goto). The OP_NOP in front of its jump becomes OP_CLOSE when
+// one of those blocks turns out to have a captured local.
+type pendingBreak struct {
+	pc     int          // the placeholder
+	close  int          // first register to close
+	blocks []*codeBlock // the blocks the break leaves, the loop block last
 }
 
 func newFuncContext(sourcename string, parent *funcContext) *funcContext {
@@ -642,6 +654,9 @@ func (fc *funcContext) CloseUpvalues() int {
 func (fc *funcContext) LeaveBlock() int {
 	closed := fc.CloseUpvalues()
 	fc.EndScope()
+	if len(fc.pendingBreaks) > 0 {
+		fc.resolvePendingBreaks()
+	}
 
 	if fc.Block.Parent != nil {
 		fc.ResolveCurrentBlockGotosWithParentBlock()
@@ -649,6 +664,28 @@ func (fc *funcContext) LeaveBlock() int {
 	fc.Block = fc.Block.Parent
 	fc.SetRegTop(fc.Block.LocalVars.LastIndex())
 	return closed
+}
+
+// resolvePendingBreaks is called when fc.Block ends, i.e. when it is known
+// whether one of its locals is captured.
+func (fc *funcContext) resolvePendingBreaks() {
+	rest := fc.pendingBreaks[:0]
+	for _, pb := range fc.pendingBreaks {
+		inside := false
+		for _, b := range pb.blocks {
+			inside = inside || b == fc.Block
+		}
+		switch {
+		case inside && fc.Block.RefUpvalue:
+			fc.Code.SetOpCode(pb.pc, OP_CLOSE)
+			fc.Code.SetA(pb.pc, pb.close)
+		case fc.Block == pb.blocks[len(pb.blocks)-1]:
+			// the loop has ended and nothing it declared is captured
+		default:
+			rest = append(rest, pb)
+		}
+	}
+	fc.pendingBreaks = rest
 }
 
 func (fc *funcContext) EndScope() {
@@ -1105,11 +1142,18 @@ func compileRepeatStmt(context *funcContext, stmt *ast.RepeatStmt) { // {{{
 
 func compileBreakStmt(context *funcContext, stmt *ast.BreakStmt) { // {{{
 	refupvalue := false // a captured local in the loop block or in any block the break leaves
+	var left []*codeBlock
 	for block := context.Block; block != nil; block = block.Parent {
 		refupvalue = refupvalue || block.RefUpvalue
+		left = append(left, block)
 		if label := block.BreakLabel; label != labelNoJump {
+			closereg := block.Parent.LocalVars.LastIndex()
 			if refupvalue {
-				context.Code.AddABC(OP_CLOSE, block.Parent.LocalVars.LastIndex(), 0, 0, sline(stmt))
+				context.Code.AddABC(OP_CLOSE, closereg, 0, 0, sline(stmt))
+			} else {
+				// decided when the blocks end
+				context.Code.AddABC(OP_NOP, 0, 0, 0, sline(stmt))
+				context.pendingBreaks = append(context.pendingBreaks, &pendingBreak{context.Code.LastPC(), closereg, left})
 			}
 			context.Code.AddASbx(OP_JMP, 0, label, sline(stmt))
 			return
